@@ -1,5 +1,6 @@
 import PysphVerif.Driver.Common
 import PysphVerif.Gen.C09Equations
+import PysphVerif.Model.NbrCacheHist
 /-!
 Line protocol for C09 (everything at `Float`, doubles as bit patterns):
 
@@ -18,6 +19,12 @@ Line protocol for C09 (everything at `Float`, doubles as bit patterns):
 * `pre a= b= kw= kg= kd= kh= deltap=` answers every precomputed symbol in
   `preNames` order.
 * `names` answers the field names and the precomputed names.
+* `cachehist junk=<n> n0=<n> rounds=<R> np0=<n> off0=<nl> nb0=<nl> ops0=<il> np1=…`
+  runs `NbrCacheHist.runHist` on a cache constructed for `n0` particles whose
+  fresh memory reads `junk`: round `r` has `np<r>` destination particles, the
+  search's lists in CSR form (`off<r>`: `np+1` offsets into `nb<r>`) and the
+  operations `ops<r>` (`d ≥ 0`: `get_neighbors(d)`, `-1`: `find_all_neighbors`).
+  Answers `ok` and the lists handed out: rounds separated by `|`, lists by `;`.
 Unknown or malformed input answers `bad-op`.
 -/
 namespace PysphVerif.Driver.C09
@@ -68,6 +75,39 @@ def kernOf (kv : List (String × String)) : Option (Kern Float) := do
   if kw.length % 3 ≠ 0 ∨ kg.length % 5 ≠ 0 ∨ kd.length % 3 ≠ 0 ∨ kh.length % 3 ≠ 0 then none
   else pure (tableKern kw kg kd kh dp)
 
+/-- the search of one round from its CSR table -/
+def csrFind (off nb : List Nat) (d : Nat) : List Nat :=
+  (nb.drop (off.getD d 0)).take (off.getD (d + 1) 0 - off.getD d 0)
+
+def opOfInt (i : Int) : Option NbrCacheHist.Op :=
+  if i = -1 then some .all else if 0 ≤ i then some (.get i.toNat) else none
+
+def parseRound (kv : List (String × String)) (r : Nat) : Option NbrCacheHist.Round := do
+  let np ← (lookup kv s!"np{r}") >>= parseNat?
+  let off ← (lookup kv s!"off{r}") >>= parseList? parseNat?
+  let nb ← (lookup kv s!"nb{r}") >>= parseList? parseNat?
+  let opsI ← (lookup kv s!"ops{r}") >>= parseList? parseInt?
+  let ops ← opsI.mapM opOfInt
+  -- a well-formed table, every query names a current particle
+  if off.length ≠ np + 1 then none
+  else if ops.any (fun o => match o with | .get d => decide (np ≤ d) | .all => false) then none
+  else pure { np := np, find := csrFind off nb, ops := ops }
+
+def showServed (out : List (List (List Nat))) : String :=
+  "|".intercalate (out.map (fun rd =>
+    if rd.isEmpty then "-" else ";".intercalate (rd.map (showList toString))))
+
+def cacheHist (kv : List (String × String)) : String :=
+  match (lookup kv "junk") >>= parseNat?, (lookup kv "n0") >>= parseNat?,
+        (lookup kv "rounds") >>= parseNat? with
+  | some junk, some n0, some R =>
+    match (List.range R).mapM (parseRound kv) with
+    | some rounds =>
+      "ok " ++ showServed (NbrCacheHist.runHist (fun _ => junk)
+                (NbrCacheHist.init (fun _ => junk) n0) rounds)
+    | none => "bad-op"
+  | _, _, _ => "bad-op"
+
 def handle (line : String) : String :=
   match tokens line with
   | [] => "bad-op"
@@ -92,6 +132,7 @@ def handle (line : String) : String :=
       match fl kv "a", fl kv "b", kernOf kv with
       | some a, some b, some k => showOut (runPre floatOps k nan a b)
       | _, _, _ => "bad-op"
+    else if cmd = "cachehist" then cacheHist kv
     else "bad-op"
 
 end PysphVerif.Driver.C09
